@@ -4,6 +4,7 @@
 -/
 import SymfcModel.Lemmas.Api
 import SymfcModel.Gen.SolverState
+import SymfcModel.Gen.Purity
 namespace Symfc.C12
 open Symfc
 
@@ -119,6 +120,13 @@ def demoState : ApiState :=
 example : ((solveStep genApiCfg demoState none (some [3, 2]) true).1 != demoState) = true ∧
     (solveStep genApiCfg demoState none (some [3, 2]) true).2 = none := by
   constructor <;> decide
+
+/-- C12.e (process-level history, extracted from EVERY module of the package): no function writes to a module-level
+    object, uses `global`/`nonlocal`, a cache decorator, a function attribute, a class-level mutable attribute or a
+    mutable default argument — the code has no place where an earlier call (another supercell, another cutoff, operations
+    supplied by the caller) could leave something behind for a later one; this is what makes the pure-function model
+    of the pipeline adequate. -/
+theorem no_state_survives_a_call : Gen.hiddenState = [] := by decide
 
 /-- C12.f (solver OBJECTS, extracted from the six solver classes): the result accessors (`full_fc`, `compact_fc`,
     `_recover_fcs`) read nothing but the coefficients of the last solve (and the constructor inputs), they and every
